@@ -131,7 +131,14 @@ func (o *c02Oracle) Probe(pt string, zeit, subd int, wdt float64, g *G, w *herme
 		}
 		clamped := 0
 		for z := 0; z < g.N; z++ {
-			if post.c1[z] == g.DN[z]*wdt/2 || post.c1[z] == 0 {
+			pe := 0.0
+			if subd == 1 {
+				pe = g.PE[z]
+			}
+			// the clamp sits in two places: the concentration handed to the transport scheme is floored at 0
+			// (a layer that cannot supply half the step's immobilisation; transport may refill it afterwards),
+			// and the new content is floored at 0 before and after the second half of the source term
+			if post.c1[z] == g.DN[z]*wdt/2 || post.c1[z] == 0 || o.pre.c1[z]-pe+g.DN[z]*wdt/2 < 0 {
 				clamped++
 			}
 		}
@@ -154,6 +161,9 @@ func (o *c02Oracle) Probe(pt string, zeit, subd int, wdt float64, g *G, w *herme
 				fmt.Sprintf("sub-step %d (length %.6g): mineral N changed by %.12g kg/ha but source %.12g - uptake %.12g - leaching %.12g - drain loss %.12g = %.12g: %.3g kg/ha vanished (N=%d, drain layer %d, QDRAIN %.4g, Q1[drain-1..drain] %.4g %.4g)", subd, wdt, dC, src, upt, lea, dra, rhs, -r, g.N, g.DRAIDEP, g.QDRAIN, q1at(g, g.DRAIDEP-1), q1at(g, g.DRAIDEP)),
 				map[string]float64{"residual": r, "subd": float64(subd), "wdt": wdt, "N": float64(g.N)})
 		} else if r > t {
+			if debugNaN {
+				fmt.Fprintf(os.Stderr, "DEBUG C02 %s subd %d wdt %g N=%d OUTN=%d DRAIDEP=%d QDRAIN=%g FLUSS0=%g GRW=%v\n Q1 %v\n pre %v\n post %v\n DN %v\n WG0 %v\n W %v\n", Day(zeit).ISO(), subd, wdt, g.N, g.OUTN, g.DRAIDEP, g.QDRAIN, g.FLUSS0, g.GRW, g.Q1[:g.N+2], o.pre.c1[:g.N+1], post.c1[:g.N+1], g.DN[:g.N+1], g.WG[0][:g.N+2], g.W[:g.N+2])
+			}
 			if clamped == 0 {
 				o.violate("substep-balance", "substep-N-created-without-clamp", zeit,
 					fmt.Sprintf("sub-step %d (length %.6g): mineral N changed by %.12g kg/ha but source %.12g - uptake %.12g - leaching %.12g - drain loss %.12g = %.12g: %.3g kg/ha appeared and no layer sits on the non-negativity clamp", subd, wdt, dC, src, upt, lea, dra, rhs, r),
